@@ -47,7 +47,11 @@ def mean_service(svc):
 
 def gen_task(g, prop, name, svc, allow_ramp, big=False):
     t = {"name": name, "clients": g.pick([1, 1, 2, 2, 3, 4, 6] + ([8, 8] if big else []))}
-    t["op"] = "composite" if prop == "C18" and g.coin(0.75) else g.pick(["sim-op", "sim-op", "raw-request"])
+    if prop == "C18" and not g.coin(0.75):
+        # a quarter of the C18 tasks are not composites: half of those run one of Rally's own multi-request runners
+        t["op"] = "real" if g.coin(0.5) else g.pick(["sim-op", "sim-op", "raw-request"])
+    else:
+        t["op"] = "composite" if prop == "C18" else g.pick(["sim-op", "sim-op", "raw-request"])
     ms = mean_service(svc)
     loop = g.weighted([5, 4, 2])
     if prop == "C05" and g.coin(0.1):
@@ -148,6 +152,10 @@ def gen_task(g, prop, name, svc, allow_ramp, big=False):
     if "size" in t:
         plan["size"] = t.pop("size")
         plan["progress"] = t.pop("progress")
+    if t["op"] == "real":
+        for k in ("size", "progress", "faults"):
+            plan.pop(k, None)
+        t["real"] = gen_real(g, name)
     if t["op"] == "composite":
         t["requests"] = gen_composite(g, name, depth=0)
         t["max-connections"] = g.pick([None, None, 1, 2, 3])
@@ -155,6 +163,30 @@ def gen_task(g, prop, name, svc, allow_ramp, big=False):
             gen_leaf_faults(g, t["requests"], name)
     t["sim"] = plan
     return t
+
+
+def gen_real(g, task):
+    """one of Rally's own runners that issue several (or no) HTTP requests on behalf of one logical request"""
+    kind = g.pick(["scroll-search", "scroll-search", "create-index", "delete-index", "delete-index", "refresh", "force-merge", "cluster-health", "sleep", "search"])
+    idx = f"ri-{task}"
+    if kind == "scroll-search":
+        pages = g.pick([1, 2, 3, 4])
+        # first page, further pages, and the clearing of the scroll in the runner's finally block
+        return {"type": kind, "params": {"index": idx, "body": {"query": {"match_all": {}}}, "pages": pages, "results-per-page": 2}, "nwire": pages + 1}
+    if kind == "create-index":
+        n = g.pick([1, 2, 3])
+        return {"type": kind, "params": {"index": [f"{idx}-{i}" for i in range(n)], "body": {"settings": {"index.number_of_replicas": 0}}}, "nwire": n}
+    if kind == "delete-index":
+        n = g.pick([1, 2, 3])
+        only = g.coin(0.7)
+        return {"type": kind, "params": {"index": [f"{idx}-{i}" for i in range(n)], "only-if-exists": only}, "nwire": 2 * n if only else n}
+    if kind == "sleep":
+        return {"type": kind, "params": {"duration": g.pick([0.001, 0.05, 0.4])}, "nwire": 0}
+    if kind == "cluster-health":
+        return {"type": kind, "params": {"request-params": {"wait_for_status": "green"}}, "nwire": 1}
+    if kind == "search":
+        return {"type": kind, "params": {"index": idx, "body": {"query": {"match_all": {}}}}, "nwire": 1}
+    return {"type": kind, "params": {"index": idx}, "nwire": 1}
 
 
 def gen_composite(g, task, depth, counter=None):
@@ -263,7 +295,9 @@ def track_spec(cfg):
     tasks = []
     for t in cfg["tasks"]:
         op = {"name": f"op-{t['name']}", "operation-type": t["op"]}
-        if t["op"] == "composite":
+        if t["op"] == "real":
+            op = {"name": f"op-{t['name']}", "operation-type": t["real"]["type"], **t["real"]["params"]}
+        elif t["op"] == "composite":
             op["requests"] = strip_svc(t["requests"])
             if t.get("max-connections"):
                 op["max-connections"] = t["max-connections"]
@@ -595,6 +629,8 @@ class LoadgenHarness(Harness):
                         ev = [(tr.get((client, p)), wires.get((client, p), [])) for p in paths]
                         starts = [e["starts"][k] for e, _ in ev if e and len(e["starts"]) > k]
                         req = {"kind": "composite", "k": k, "paths": paths}
+                    elif t["op"] == "real":
+                        req = {"kind": "real", "k": k, "paths": [], "nwire": t["real"]["nwire"]}
                     else:
                         seq = k
                         nw = 1 if t["op"] == "raw-request" else (plan.get("nwire") or [1])[seq % len(plan.get("nwire") or [1])]
@@ -961,6 +997,40 @@ def check_contexts(cfg, t, client, samples, reqs, tr, wires, proc, tol, bad, pro
                     if a is None or b is None or abs(a - spi[0]) > 1e-9 or abs(b - spi[1]) > 1e-9:
                         bad("nested-context", "span", f"{ctx}: the runner's own context around {'all wire requests' if i is None else f'wire request {i}'} recorded [{a}, {b}], the wire requests inside it span [{spi[0]}, {spi[1]}]")
                         return
+            continue
+        if req["kind"] == "real":
+            # one of Rally's own runners: everything this client sent between this turn of the schedule and the next one was sent
+            # on behalf of this logical request
+            real = t["real"]
+            lo_idx = ys[k][4]
+            hi_idx = ys[k + 1][4] if k + 1 < len(ys) else float("inf")
+            final_idx = marks.get(id(s), float("inf"))
+            mine = [r for r in recs if lo_idx <= r["start_idx"] < hi_idx]
+            rec_end = s.request_start + s.service_time
+            if real["type"] == "sleep":
+                d = real["params"]["duration"]
+                if mine:
+                    bad("real-runner", "unexpected-requests", f"{ctx}: a sleep issued {len(mine)} HTTP requests")
+                    return
+                if s.service_time < d - 1e-9 or s.service_time > d + 0.05 + tol:
+                    bad("request-span", "sleep", f"{ctx}: a sleep of {d}s is recorded with a service time of {s.service_time}s")
+                    return
+                continue
+            if len(mine) != req["nwire"]:
+                # not a timing matter; the oracle below still holds for whatever was sent
+                probes["real_runner_other_request_count"] = 1
+            done = [(r["start"][1], max(e[1] for e in r["ends"] if e[2] < final_idx)) for r in mine if any(e[2] < final_idx for e in r["ends"])]
+            if not done or len(done) != len(mine):
+                continue
+            if len(done) > 1:
+                probes["real_runner_multi_request"] = 1
+            lo, hi = min(a for a, _ in done), max(b for _, b in done)
+            if abs(s.request_start - lo) > 1e-9:
+                bad("request-span", "real-runner-start", f"{ctx}: {real['type']} recorded request_start {s.request_start}, the earliest of its {len(done)} HTTP requests started at {lo}")
+                return
+            if abs(rec_end - hi) > 1e-9:
+                bad("request-span", "real-runner-end", f"{ctx}: {real['type']} recorded request_end {rec_end}, the latest of its {len(done)} HTTP requests ended at {hi} ({[r['path'] for r in mine]})")
+                return
             continue
         # composite: the HTTP requests this client started between this turn of the schedule and the next one
         lo_idx = ys[k][4]
